@@ -1,5 +1,6 @@
 """C20 Build configurations"""
 import ecfg
+import eunits
 
 LEVEL = "E-CFG"
 QUICK = ("ptr", "idx-nocache-st", "ptr-nocache-st")
@@ -21,6 +22,9 @@ def run(ctx):
     ctx.explain("E-CFG.slabtype: every arcslab handle type in the pointer manager names the slab's own data type "
                 "(the handle locates the slab header through it when a slot is freed).")
     n = ecfg.check_slab_data_type(ctx, F)
+    ctx.explain("E-UNITS on the rules crates: the hand-over from the parallel to the sequential recursor and the ST / MT "
+                "wrappers pass variable and level numbers in their declared positions.")
+    nfn, _ = eunits.run(ctx, F, crates=("oxidd_rules_bdd", "oxidd_rules_zbdd", "oxidd_rules_mtbdd", "oxidd_rules_tdd"))
     ctx.floor("E-CFG.slabtype", "arcslab handle / slab types in the pointer manager", n, 50)
     ecfg.run_config(ctx, "ws", deep=True)
     for c in (ALL if ctx.tier == "thorough" else QUICK):
